@@ -381,7 +381,14 @@ func c07GenAgg(rng *rand.Rand, exprArgPct int) *c07Expr {
 	return &c07Expr{kind: "agg", fn: fn, arg: c07GenArg(rng, fn, rng.Intn(100) < exprArgPct)}
 }
 
+// c07NegLits is switched on per query (never together with the compact rendering, where
+// "x--1" would start an SQL comment).
+var c07NegLits bool
+
 func c07Lit(rng *rand.Rand) *c07Expr {
+	if c07NegLits && rng.Intn(4) == 0 {
+		return &c07Expr{kind: "lit", lit: []float64{-1, -2.5}[rng.Intn(2)]}
+	}
 	return &c07Expr{kind: "lit", lit: c07Lits[rng.Intn(len(c07Lits))]}
 }
 
@@ -475,6 +482,10 @@ func (c07) Gen(rng *rand.Rand, tier string, idx int) Case {
 	var c Case
 	q := &c07Query{limit: -1, lower: rng.Intn(4) == 0, compact: rng.Intn(4) == 0}
 	stat := map[string]bool{}
+	c07NegLits = !q.compact && rng.Intn(3) == 0
+	if c07NegLits {
+		stat["negative-literals"] = true
+	}
 
 	// mode
 	mode := "direct"
@@ -583,7 +594,7 @@ func (c07) Gen(rng *rand.Rand, tier string, idx int) Case {
 			case 1:
 				v -= 0.5
 			}
-			if v < 0 { // keep literals unsigned in the SQL text
+			if v < 0 && !c07NegLits { // signed literals only in queries that opted in
 				v = 0
 			}
 			v = math.Round(v*8) / 8
